@@ -765,3 +765,29 @@ func sigHash(parts ...any) string {
 }
 
 func newRand(seed int64) *rand.Rand { return rand.New(rand.NewSource(seed)) }
+
+// settle waits until done() holds or until progress() has not changed for
+// `stall` (the system has gone quiet without being done). It returns (true, _)
+// if done, (false, true) if the system stalled, (false, false) if the watchdog
+// expired while there still was progress. A "kick" proof is only meaningful
+// after a stall: a system that is merely slow is still making progress.
+func settle(wd, stall time.Duration, done func() bool, progress func() int64) (finished, stalled bool) {
+	deadline := time.Now().Add(wd)
+	last := progress()
+	lastChange := time.Now()
+	for {
+		if done() {
+			return true, false
+		}
+		if p := progress(); p != last {
+			last, lastChange = p, time.Now()
+		}
+		if time.Since(lastChange) >= stall {
+			return false, true
+		}
+		if time.Now().After(deadline) {
+			return false, false
+		}
+		time.Sleep(2 * time.Millisecond)
+	}
+}
